@@ -11,6 +11,7 @@ import Drivers.Codec
 import Drivers.Dist
 import Drivers.MeshOps
 import Drivers.Cavity
+import Drivers.Guards
 
 /-! `refdrv <driver> [args]` : dispatch to a line-protocol driver. One match arm per driver, on one line. -/
 
@@ -27,6 +28,7 @@ def main (args : List String) : IO UInt32 := do
   | "dist" :: rest => Drivers.Dist.run rest
   | "meshops" :: rest => Drivers.MeshOps.run rest
   | "cavity" :: rest => Drivers.Cavity.run rest
+  | "guards" :: rest => Drivers.Guards.run rest
   | _ =>
     IO.eprintln s!"refdrv: unknown driver {args}"
     return 2
